@@ -470,7 +470,7 @@ def body_fuzz(case):
         os.makedirs(corpus)
         _seed_corpus(corpus)
         stats, crash = os.path.join(work, "stats.json"), os.path.join(work, "crash.bin")
-        env = dict(os.environ, NSSVERIF_FUZZ_STATS=stats, NSSVERIF_FUZZ_CRASH=crash, PYTHONPATH=os.pathsep.join([VERIF_DIR, os.path.join(VERIF_DIR, ".deps"), os.environ.get("PYTHONPATH", "")]))
+        env = dict(os.environ, NSSVERIF_FUZZ_TMP=os.path.join(work, "tmp"), NSSVERIF_FUZZ_STATS=stats, NSSVERIF_FUZZ_CRASH=crash, PYTHONPATH=os.pathsep.join([VERIF_DIR, os.path.join(VERIF_DIR, ".deps"), os.environ.get("PYTHONPATH", "")]))
         cmd = [sys.executable, "-m", "nssverif.fuzz.toml_target", f"-runs={case['runs']}", f"-seed={case['seed'] or 1}", f"-max_len={case['max_len']}", f"-dict={os.path.join(VERIF_DIR, 'nssverif', 'fuzz', 'toml.dict')}", f"-artifact_prefix={work}/", "-print_final_stats=1", corpus]
         r = subprocess.run(cmd, env=env, cwd=VERIF_DIR, capture_output=True, text=True, timeout=7200)
         if not os.path.exists(stats):
